@@ -1,4 +1,4 @@
--- GENERATED on every run by tools/cxx2lean_qt.py from src/src/basicauthmiddleware.cpp — do not edit.
+-- GENERATED on every run by tools/cxx2lean_qt.py from src/src/basicauthmiddleware.cpp and localauthmiddleware.cpp — do not edit.
 import Qhttp.Model.AxPrim
 set_option linter.unusedVariables false
 
@@ -32,6 +32,14 @@ def BasicAuthMiddleware_process (ae : Ax.Env) (s : List Ax.Act) : List Ax.Act ×
     let s := Ax.setHeader s ([87, 87, 87, 45, 65, 117, 116, 104, 101, 110, 116, 105, 99, 97, 116, 101] : Bytes) (Ax.arg1 ([66, 97, 115, 105, 99, 32, 114, 101, 97, 108, 109, 61, 34, 37, 49, 34] : Bytes) ae.realm)
     let s := Ax.err s (401 : Int)
     (s, false)
+
+/-- `LocalAuthMiddleware::process` -/
+def LocalAuthMiddleware_process (ae : Ax.Env) (s : List Ax.Act) : List Ax.Act × Bool :=
+  if ((HeaderMap.value ae.tokenHeader ae.hdrs) != ae.token) then
+    let s := Ax.err s (403 : Int)
+    (s, false)
+  else
+    (s, true)
 
 end QhttpGen.Auth
 
